@@ -142,6 +142,8 @@ class LongitudeContinuity(Contract):
         yield (None, [0.0, 10.0, -91.0, 1.0]), {}
         yield ((np.array([361.0]), np.array([0.0])), [0.0, 10.0, 0.0, 1.0]), {}
         yield ((np.array([0.0]), np.array([-90.5])), [0.0, 10.0, 0.0, 1.0]), {}
+        yield ((np.array([float("nan"), 400.0]), np.zeros(2)), [-20.0, 20.0, -20.0, 20.0]), {}
+        yield ((np.array([5.0, 6.0]), np.array([float("nan"), 100.0])), [-20.0, 20.0, -20.0, 20.0]), {}
 
     def ensures(self, a, r):
         W, E, S_, N = self._r4(a)
@@ -227,6 +229,11 @@ class CheckGeographicCoordinates(Contract):
     def samples(self, rng, nrng, tier):
         for lon, lat in [([0.0, 360.0], [0.0, 90.0]), ([0.0, 360.1], [0.0, 90.0]), ([-180.0], [-90.0]), ([-180.5], [0.0]), ([10.0], [90.01]), ([10.0, 20.0], [0.0, -90.01])]:
             yield ((np.array(lon), np.array(lat)),), {}
+        # missing values (NaN) next to out-of-range ones: still rejected; NaN alone is no reason to reject
+        nan = float("nan")
+        for lon, lat in [([nan, 400.0], [0.0, 0.0]), ([nan, -200.0, 10.0], [0.0, nan, 0.0]), ([10.0, nan], [nan, 100.0]), ([10.0, 20.0], [-95.0, nan]), ([nan, 10.0], [0.0, nan]), ([nan], [nan])]:
+            yield ((np.array(lon), np.array(lat)),), {}
+        yield ((np.array([[nan, 361.0], [0.0, 1.0]]), np.zeros((2, 2))),), {}
 
 
 @register
